@@ -1837,10 +1837,10 @@ class Module(object):
         else:
             object.__delattr__(self, name)
 
-    def named_parameters(self, prefix="", recurse=True):
+    def named_parameters(self, prefix="", recurse=True, remove_duplicate=True):
         seen = set()
         for n, p in self._parameters.items():
-            if p is None or id(p) in seen:
+            if p is None or (remove_duplicate and id(p) in seen):
                 continue
             seen.add(id(p))
             yield (prefix + ("." if prefix else "") + n, p)
@@ -1848,8 +1848,8 @@ class Module(object):
             for mn, m in self._modules.items():
                 if m is None:
                     continue
-                for n, p in m.named_parameters(prefix + ("." if prefix else "") + mn):
-                    if id(p) in seen:
+                for n, p in m.named_parameters(prefix + ("." if prefix else "") + mn, True, remove_duplicate):
+                    if remove_duplicate and id(p) in seen:
                         continue
                     seen.add(id(p))
                     yield (n, p)
